@@ -59,6 +59,8 @@ Section Conj.
   Variable cadv : C -> Z -> res (option dmatch * C).
   Variable CInv CFin : C -> (Z -> bool) -> Z -> Prop.
   Hypothesis Hct : contract cnext cadv CInv CFin.
+  Variable CNew : C -> (Z -> bool) -> Prop.
+  Hypothesis Hnew : new_exact cnext CInv CFin CNew.
   Variable N : Z.    (* every denotation lives in [0, N) *)
   Variable Ss0 : list (Z -> bool).   (* the children's denotations *)
 
@@ -102,9 +104,11 @@ Section Conj.
   (* ---------- next_all: every child steps once ---------- *)
 
   (* after a match at d every child is exact from d+1; stepping all of them re-establishes the invariant at d+1 *)
-  Lemma next_all_spec : forall cs Ss d,
+  Lemma next_all_gen : forall (P : C -> (Z -> bool) -> Prop) d,
+    (forall c S, P c S -> exists r c', cnext c = Ok (r, c') /\ exact_post CInv CFin S (d + 1) r c') ->
+    forall cs Ss,
     length cs = length Ss ->
-    (forall i c S, nth_error cs i = Some c -> nth_error Ss i = Some S -> bounded S /\ CInv c S (d + 1)) ->
+    (forall i c S, nth_error cs i = Some c -> nth_error Ss i = Some S -> bounded S /\ P c S) ->
     exists currs cs', next_all C cnext cs = Ok (currs, cs') /\
       all3 child_ok cs' Ss currs /\
       (forall i m S x, nth_error currs i = Some (Some m) -> nth_error Ss i = Some S -> d + 1 <= x < dm_num m -> S x = false) /\
@@ -112,13 +116,13 @@ Section Conj.
       (forall i m, nth_error currs i = Some (Some m) -> d + 1 <= dm_num m) /\
       (forall i c S, nth_error cs' i = Some c -> nth_error Ss i = Some S -> nth_error currs i = Some None -> CFin c S (d + 1)).
   Proof.
-    induction cs as [| c cs IH]; intros Ss d Hlen Hall.
+    intros P d HP. induction cs as [| c cs IH]; intros Ss Hlen Hall.
     - destruct Ss; [|discriminate]. exists [], []. simpl. split; [reflexivity|].
       split; [constructor|]. repeat split; intros [| i]; simpl; intros; discriminate.
     - destruct Ss as [| S Ss]; [discriminate|]. simpl in Hlen.
       destruct (Hall O c S eq_refl eq_refl) as [HB HI].
-      destruct (ct_next _ _ _ _ _ Hct c S (d + 1) HI) as [r [c' [E Hpost]]].
-      destruct (IH Ss d) as [currs [cs' [E2 [H3 [Hgap [Hnone [Hfrom Hfin]]]]]]].
+      destruct (HP c S HI) as [r [c' [E Hpost]]].
+      destruct (IH Ss) as [currs [cs' [E2 [H3 [Hgap [Hnone [Hfrom Hfin]]]]]]].
       { lia. }
       { intros i c0 S0 Hc HS. apply (Hall (Datatypes.S i) c0 S0); assumption. }
       exists (r :: currs), (c' :: cs'). simpl. rewrite E. simpl. rewrite E2. simpl.
@@ -141,6 +145,33 @@ Section Conj.
       + intros [| i] c0 S0 Hc HS Hn; simpl in *.
         * inversion Hc; subst. inversion HS; subst. inversion Hn; subst. simpl in Hpost. apply Hpost.
         * eapply Hfin; eauto.
+  Qed.
+
+  Lemma next_all_spec : forall cs Ss d,
+    length cs = length Ss ->
+    (forall i c S, nth_error cs i = Some c -> nth_error Ss i = Some S -> bounded S /\ CInv c S (d + 1)) ->
+    exists currs cs', next_all C cnext cs = Ok (currs, cs') /\
+      all3 child_ok cs' Ss currs /\
+      (forall i m S x, nth_error currs i = Some (Some m) -> nth_error Ss i = Some S -> d + 1 <= x < dm_num m -> S x = false) /\
+      (forall i S, nth_error currs i = Some None -> nth_error Ss i = Some S -> none_from S (d + 1)) /\
+      (forall i m, nth_error currs i = Some (Some m) -> d + 1 <= dm_num m) /\
+      (forall i c S, nth_error cs' i = Some c -> nth_error Ss i = Some S -> nth_error currs i = Some None -> CFin c S (d + 1)).
+  Proof.
+    intros cs Ss d. apply (next_all_gen (fun c S => CInv c S (d + 1)) d).
+    intros c S HI. exact (ct_next _ _ _ _ _ Hct c S (d + 1) HI).
+  Qed.
+
+  Lemma next_all_new : forall cs Ss,
+    length cs = length Ss ->
+    (forall i c S, nth_error cs i = Some c -> nth_error Ss i = Some S -> bounded S /\ CNew c S) ->
+    exists currs cs', next_all C cnext cs = Ok (currs, cs') /\
+      all3 child_ok cs' Ss currs /\
+      (forall i m S x, nth_error currs i = Some (Some m) -> nth_error Ss i = Some S -> -1 + 1 <= x < dm_num m -> S x = false) /\
+      (forall i S, nth_error currs i = Some None -> nth_error Ss i = Some S -> none_from S (-1 + 1)) /\
+      (forall i m, nth_error currs i = Some (Some m) -> -1 + 1 <= dm_num m) /\
+      (forall i c S, nth_error cs' i = Some c -> nth_error Ss i = Some S -> nth_error currs i = Some None -> CFin c S (-1 + 1)).
+  Proof.
+    intros cs Ss. apply (next_all_gen CNew (-1)). intros c S HI. exact (Hnew c S HI).
   Qed.
 
   (* ---------- advancing one child to a target ---------- *)
@@ -443,7 +474,7 @@ Section Conj.
 
   Definition conj_fresh (st : conj_st C) : Prop :=
     cj_init st = false /\ cj_max st = O /\ length (cj_s st) = length Ss0 /\
-    forall i c S, nth_error (cj_s st) i = Some c -> nth_error Ss0 i = Some S -> bounded S /\ CInv c S 0.
+    forall i c S, nth_error (cj_s st) i = Some c -> nth_error Ss0 i = Some S -> bounded S /\ CNew c S.
 
   Definition conj_inv (st : conj_st C) (lo : Z) : Prop := conj_ready st lo \/ (conj_fresh st /\ lo = 0).
 
@@ -482,7 +513,7 @@ Section Conj.
     intros st lo [HR|[[Hi [Hmx [Hlen Hall]]] ->]].
     - exists st. unfold conj_initialise. destruct HR as [Hi HR]. rewrite Hi. split; [reflexivity|split; assumption].
     - unfold conj_initialise. rewrite Hi.
-      destruct (next_all_spec (cj_s st) Ss0 (-1) Hlen) as [currs [cs' [E [H3 [Hgap [Hnone [Hfrom Hfin]]]]]]].
+      destruct (next_all_new (cj_s st) Ss0 Hlen) as [currs [cs' [E [H3 [Hgap [Hnone [Hfrom Hfin]]]]]]].
       { intros i c S Hc HS. exact (Hall i c S Hc HS). }
       rewrite E. simpl. eexists. split; [reflexivity|].
       destruct (all3_length _ _ _ _ H3) as [Hl1 Hl2].
